@@ -24,13 +24,13 @@ theorem removeCsi_noEsc (s : List Char) (h : ∀ c ∈ s, c ≠ ESC) : removeCsi
 
 /-! ### skipping and plain text -/
 
-theorem tokAux_skip (lazy : Bool) (p rest acc : List Char) : tokAux lazy (p ++ rest) p.length acc = tokAux lazy rest 0 acc := by
+theorem tokAux_skip (lazy bel : Bool) (p rest acc : List Char) : tokAux lazy bel (p ++ rest) p.length acc = tokAux lazy bel rest 0 acc := by
   induction p with
   | nil => rfl
   | cons c r ih => simpa [tokAux] using ih
 
-theorem tokAux_plain (lazy : Bool) (p rest acc : List Char) (h : ∀ c ∈ p, c ≠ ESC) :
-    tokAux lazy (p ++ rest) 0 acc = tokAux lazy rest 0 (acc ++ p) := by
+theorem tokAux_plain (lazy bel : Bool) (p rest acc : List Char) (h : ∀ c ∈ p, c ≠ ESC) :
+    tokAux lazy bel (p ++ rest) 0 acc = tokAux lazy bel rest 0 (acc ++ p) := by
   induction p generalizing acc with
   | nil => simp
   | cons c r ih =>
@@ -72,34 +72,58 @@ theorem findM_body (lazy : Bool) (body rest : List Char) (h : ∀ c ∈ body, is
   · exact findSgrM_body body rest h
   · exact findLazyM_body body rest (fun c hc => isSgrParam_ne (h c hc))
 
-theorem findST_body (body rest : List Char) (h : ∀ c ∈ body, c ≠ ESC ∧ c ≠ '\n') :
-    findST (body ++ ESC :: '\\' :: rest) = some body := by
+theorem findST_body (bel : Bool) (body rest : List Char) (h : ∀ c ∈ body, c ≠ ESC ∧ c ≠ '\n' ∧ c ≠ BEL) :
+    findST bel (body ++ ESC :: '\\' :: rest) = some (body, 2) := by
   induction body with
   | nil => simp [findST]
   | cons c r ih =>
-    obtain ⟨h1, h2⟩ := h c (by simp)
-    simp only [List.cons_append, findST, h1, h2, false_and, if_false]
+    obtain ⟨h1, h2, h3⟩ := h c (by simp)
+    simp only [List.cons_append, findST, h1, h2, h3, false_and, and_false, if_false]
+    rw [ih (fun x hx => h x (by simp [hx]))]
+    rfl
+
+/-- repaired (F33): an OSC string ended by BEL -/
+theorem findST_body_bel (body rest : List Char) (h : ∀ c ∈ body, c ≠ ESC ∧ c ≠ '\n' ∧ c ≠ BEL) :
+    findST true (body ++ BEL :: rest) = some (body, 1) := by
+  induction body with
+  | nil =>
+    have : ¬ (BEL = ESC ∧ rest.head? = some '\\') := by intro ⟨h, _⟩; revert h; decide
+    simp [findST, this]
+  | cons c r ih =>
+    obtain ⟨h1, h2, h3⟩ := h c (by simp)
+    simp only [List.cons_append, findST, h1, h2, h3, false_and, and_false, if_false]
     rw [ih (fun x hx => h x (by simp [hx]))]
     rfl
 
 /-! ### the sequences the encoder writes -/
 
-theorem tokAux_sgr (lazy : Bool) (body rest acc : List Char) (h : ∀ c ∈ body, isSgrParam c = true) :
-    tokAux lazy (ESC :: '[' :: (body ++ 'm' :: rest)) 0 acc = flushPlain acc ++ .sgr body :: tokAux lazy rest 0 [] := by
-  have hs := tokAux_skip lazy (body ++ ['m']) rest []
+theorem tokAux_sgr (lazy bel : Bool) (body rest acc : List Char) (h : ∀ c ∈ body, isSgrParam c = true) :
+    tokAux lazy bel (ESC :: '[' :: (body ++ 'm' :: rest)) 0 acc = flushPlain acc ++ .sgr body :: tokAux lazy bel rest 0 [] := by
+  have hs := tokAux_skip lazy bel (body ++ ['m']) rest []
   simp only [List.append_assoc, List.singleton_append, List.length_append, List.length_cons,
     List.length_nil, Nat.zero_add] at hs
   simp only [tokAux, if_true, findM_body lazy body rest h]
   rw [hs]
 
-theorem tokAux_osc (lazy : Bool) (body rest acc : List Char) (h : ∀ c ∈ body, c ≠ ESC ∧ c ≠ '\n') :
-    tokAux lazy (ESC :: ']' :: (body ++ ESC :: '\\' :: rest)) 0 acc =
-      flushPlain acc ++ .osc body :: tokAux lazy rest 0 [] := by
-  have hs := tokAux_skip lazy (body ++ [ESC, '\\']) rest []
+theorem tokAux_osc (lazy bel : Bool) (body rest acc : List Char) (h : ∀ c ∈ body, c ≠ ESC ∧ c ≠ '\n' ∧ c ≠ BEL) :
+    tokAux lazy bel (ESC :: ']' :: (body ++ ESC :: '\\' :: rest)) 0 acc =
+      flushPlain acc ++ .osc body :: tokAux lazy bel rest 0 [] := by
+  have hs := tokAux_skip lazy bel (body ++ [ESC, '\\']) rest []
   simp only [List.append_assoc, List.cons_append, List.nil_append, List.length_append, List.length_cons,
     List.length_nil, Nat.zero_add] at hs
   have hne : (']' : Char) ≠ '[' := by decide
-  simp only [tokAux, if_true, hne, if_false, findST_body body rest h]
+  simp only [tokAux, if_true, hne, if_false, findST_body bel body rest h]
+  rw [hs]
+
+/-- repaired (F33): `ESC ] body BEL` is an OSC token too -/
+theorem tokAux_osc_bel (lazy : Bool) (body rest acc : List Char) (h : ∀ c ∈ body, c ≠ ESC ∧ c ≠ '\n' ∧ c ≠ BEL) :
+    tokAux lazy true (ESC :: ']' :: (body ++ BEL :: rest)) 0 acc =
+      flushPlain acc ++ .osc body :: tokAux lazy true rest 0 [] := by
+  have hs := tokAux_skip lazy true (body ++ [BEL]) rest []
+  simp only [List.append_assoc, List.cons_append, List.nil_append, List.length_append, List.length_cons,
+    List.length_nil, Nat.zero_add] at hs
+  have hne : (']' : Char) ≠ '[' := by decide
+  simp only [tokAux, if_true, hne, if_false, findST_body_bel body rest h]
   rw [hs]
 
 /-! ### `rsplit("\r", 1)[-1]` -/
@@ -144,13 +168,45 @@ theorem afterLastCR_trailing (s : List Char) (h : ∀ c ∈ s, c ≠ '\r') (k : 
       intro k t
       induction k with
       | zero => rfl
-      | succ n ih => simp [List.replicate_succ, List.dropWhile, ih]
+      | succ n ih => simp [List.replicate_succ, ih]
     rw [h1]
     have := rstripCR_noCR s h
     unfold rstripCR at this
     exact this
   simp only [afterLastCR, Bool.false_eq_true, if_false, hstrip]
   exact afterLastCRAsFound_noCR s h
+
+theorem rstripCR_append_CRs (x : List Char) (k : Nat) : rstripCR (x ++ List.replicate k '\r') = rstripCR x := by
+  unfold rstripCR
+  rw [List.reverse_append, List.reverse_replicate]
+  have h1 : ∀ (k : Nat) (t : List Char), (List.replicate k '\r' ++ t).dropWhile (· = '\r') = t.dropWhile (· = '\r') := by
+    intro k t
+    induction k with
+    | zero => rfl
+    | succ n ih => simp [List.replicate_succ, ih]
+  rw [h1]
+
+theorem rstripCR_last (y : List Char) (c : Char) (hc : c ≠ '\r') : rstripCR (y ++ [c]) = y ++ [c] := by
+  unfold rstripCR
+  simp [List.reverse_append, hc]
+
+/-- repaired (F31): of a line with carriage returns inside, exactly the text after the last carriage return that
+is followed by text is kept — `pre ⏎ seg ⏎…⏎` (seg non-empty, without CR) goes on as `seg`, whatever `pre` is. -/
+theorem afterLastCR_last_segment (pre seg : List Char) (hs : ∀ c ∈ seg, c ≠ '\r') (hne : seg ≠ []) (k : Nat) :
+    afterLastCR false (pre ++ '\r' :: (seg ++ List.replicate k '\r')) = seg := by
+  have hstrip : rstripCR (pre ++ '\r' :: (seg ++ List.replicate k '\r')) = pre ++ '\r' :: seg := by
+    have e : pre ++ '\r' :: (seg ++ List.replicate k '\r') = (pre ++ '\r' :: seg) ++ List.replicate k '\r' := by simp
+    rw [e, rstripCR_append_CRs]
+    obtain ⟨y, c, hyc⟩ : ∃ y c, seg = y ++ [c] := by
+      cases hl : seg.reverse with
+      | nil => simp at hl; exact absurd hl hne
+      | cons c r => exact ⟨r.reverse, c, by rw [← List.reverse_reverse seg, hl]; simp⟩
+    have hc : c ≠ '\r' := hs c (by rw [hyc]; simp)
+    have e2 : pre ++ '\r' :: seg = (pre ++ '\r' :: y) ++ [c] := by rw [hyc]; simp
+    rw [e2, rstripCR_last _ c hc]
+  simp only [afterLastCR, Bool.false_eq_true, if_false, hstrip, afterLastCRAsFound, List.foldl_append, List.foldl_cons,
+    if_true]
+  simpa using afterLastCR_foldl seg [] hs
 
 end Ansi
 end RichModel
